@@ -125,12 +125,12 @@ func lemmaOrder(a, b ID) bool {
 
 // ---- NewID: the id gives back the ssid it was created for (C19), carries the query-key prefix (C06)
 
-//@ verify NewID pre=pre_NewID post=post_NewID_len,post_NewID_words props=C19,C06
+//@ verify NewID pre=pre_NewID post=post_NewID_len,post_NewID_words,post_NewID_time,post_NewID_seq props=C19,C06
 //@ loop NewID 0 inv inv_NewID modifies=id
 func pre_NewID(ssid Ssid) bool { return len(ssid) >= 2 && len(ssid) <= 65536 }
 func inv_NewID(rangeindex int, ssid Ssid, id ID) bool {
 	return -1 <= rangeindex && rangeindex < len(ssid) && len(id) == fixed+4*len(ssid) &&
-		specBE32(id, 0) == ssid[0]^ssid[1] &&
+		specBE32(id, 0) == ssid[0]^ssid[1] && post_NewID_time(ssid, id) && post_NewID_seq(ssid, id) &&
 		vs.Forall(0, rangeindex+1, func(j int) bool { return specWord(id, j) == ssid[j] })
 }
 func post_NewID_len(ssid Ssid, res0 ID) bool {
@@ -138,6 +138,16 @@ func post_NewID_len(ssid Ssid, res0 ID) bool {
 }
 func post_NewID_words(ssid Ssid, res0 ID) bool {
 	return vs.Forall(0, len(ssid), func(j int) bool { return specWord(res0, j) == ssid[j] })
+}
+
+// The clock and the process-wide sequence counter are outside the verified code; NewID's calls to them are the
+// recorded events 0..2 (time.Now, Time.Unix, atomic.AddUint32). Bytes 4..7 hold the inverted second count since
+// `offset`, bytes 8..11 the inverted sequence number - inverted so that later ids sort first (lemmaOrder).
+func post_NewID_time(ssid Ssid, res0 ID) bool {
+	return vs.TraceIs(1, "Unix") && specBE32(res0, 4) == 4294967295-uint32(vs.TraceRetInt64(1, 0)-offset)
+}
+func post_NewID_seq(ssid Ssid, res0 ID) bool {
+	return vs.TraceLen() == 3 && vs.TraceIs(2, "AddUint32") && specBE32(res0, 8) == 4294967295-vs.TraceRetUint32(2, 0)
 }
 
 // Ssid(NewID(s)) = s and Contract(NewID(s)) = s[0], over the two contracts above
@@ -365,4 +375,25 @@ func post_Remove(s *Subscribers, value Subscriber, res0 bool) bool {
 func pre_Subscribers_Contains(s *Subscribers, value Subscriber) bool { return s != nil && *s != nil && value != nil }
 func post_Contains(s *Subscribers, value Subscriber, res0 bool) bool {
 	return res0 == vs.Has(*s, specHid(value)) && specOthersSame(s, 0) && vs.Has(*s, 0) == specHadKey(s, 0)
+}
+
+// two subscribers, one filter a level-wise prefix of the other: removing the deeper one must not detach the
+// node that still holds the shallower one (the cascade in orphan looks at the PARENT's subscribers)
+//@ bounded standinTriePrefixPair pre=pre_standinTriePair props=C01 bound=2-subscribers,filters-[c,a]-and-[c,a,b],emitter-mode
+func pre_standinTriePair(c, a, b uint32, id1, id2 string) bool {
+	return c != wildcard && c != multiWildcard && a != share && a != wildcard && a != multiWildcard && b != wildcard && b != multiWildcard &&
+		hash.OfString(id1) != hash.OfString(id2)
+}
+func standinTriePrefixPair(c, a, b uint32, id1, id2 string) bool {
+	t := NewTrie()
+	s1, s2 := &specSub{id: id1}, &specSub{id: id2}
+	t.Subscribe(Ssid{c, a}, s1)
+	t.Subscribe(Ssid{c, a, b}, s2)
+	r0 := t.Lookup(Ssid{c, a, b}, nil)
+	ok0 := r0.Contains(s1) && r0.Contains(s2) && r0.Size() == 2 && t.Count() == 2
+	t.Unsubscribe(Ssid{c, a, b}, s2)
+	r1 := t.Lookup(Ssid{c, a, b}, nil)
+	ok1 := r1.Contains(s1) && !r1.Contains(s2) && r1.Size() == 1 && t.Count() == 1
+	t.Unsubscribe(Ssid{c, a}, s1)
+	return ok0 && ok1 && t.Count() == 0 && len(t.root.children) == 0
 }
